@@ -921,6 +921,13 @@ impl<'a> Message<'a> {
                     e
                 );
                 match e {
+                    // a truncated attribute header already counts the header bytes
+                    StunParseError::Truncated { expected, actual } if data.len() < 4 => {
+                        StunParseError::Truncated {
+                            expected: expected + data_offset,
+                            actual: actual + data_offset,
+                        }
+                    }
                     StunParseError::Truncated { expected, actual } => StunParseError::Truncated {
                         expected: expected + 4 + data_offset,
                         actual: actual + 4 + data_offset,
